@@ -313,6 +313,11 @@ func (s *Scanner) skipQuote(quote rune) error {
 		pos     = s.pos
 		escaped = s.BackslashEscapes || s.EscapedStringExt && s.pos > 0 && (s.input[s.pos-1] == 'E' || s.input[s.pos-1] == 'e')
 	)
+	// Backslash is an escape character only inside string literals,
+	// not inside backtick-quoted identifiers (e.g. MySQL `a\`).
+	if quote == '`' {
+		escaped = false
+	}
 	for {
 		switch r := s.next(); {
 		case r == eos:
